@@ -1033,6 +1033,72 @@ pub enum Field {
 
 pub const ID_LISTS: [&str; 5] = ["annotations", "data", "keys", "resources", "annotationsets"];
 
+/// distance between the numbers of successive temporary ids of a ladder (`Mutation::JLadder`)
+pub const LADDER_STEPS: [u64; 8] = [1, 2, 1000, 60000, 65535, 65536, 65537, 1_000_000];
+/// number of items the list is grown to (its items repeated cyclically) before the ladder is laid over it
+pub const LADDER_GROW: [usize; 6] = [0, 8, 16, 24, 32, 48];
+/// the lists a ladder can be laid over: annotations, data of a data set, keys of a data set, data list of an annotation
+pub const LADDER_LISTS: [&str; 4] = ["annotations", "data", "keys", "annotation-data"];
+
+/// every spelling a SelectorType entry can have: the six simple kinds, the three complex kinds, and what is none of them
+pub const SELECTOR_NAMES: [&str; 18] = [
+    "TextSelector",
+    "AnnotationSelector",
+    "ResourceSelector",
+    "DataSetSelector",
+    "DataKeySelector",
+    "AnnotationDataSelector",
+    "MultiSelector",
+    "CompositeSelector",
+    "DirectionalSelector",
+    "InternalRangedSelector",
+    "FooSelector",
+    "",
+    "textselector",
+    "resource",
+    "multi",
+    "TextSelector ",
+    "Ünknown",
+    "DIRECTIONALSELECTOR",
+];
+
+/// the columns of an annotations table that run parallel to SelectorType
+pub const SELECTOR_COLUMNS: [&str; 7] = ["TargetResource", "TargetAnnotation", "TargetDataSet", "BeginOffset", "EndOffset", "TargetKey", "TargetData"];
+
+/// how the list of selector types of a row is rewritten (`old` = the entries the cell had, `new` = the drawn names)
+#[derive(Clone, Debug, Serialize, Deserialize, PartialEq)]
+pub enum SelEdit {
+    /// new
+    Replace,
+    /// new[0] + old[1..]: the head retyped, the rest as it was
+    Head,
+    /// new + old
+    Prepend,
+    /// old + new
+    Append,
+    /// old with the entry at this position (never the head when there is more than one) := new[0]
+    At(u16),
+    /// old[1..]: the head lost
+    DropHead,
+    /// old[0] repeated 2 + n times
+    RepeatHead(u8),
+}
+
+/// what happens to the parallel columns of the row
+#[derive(Clone, Debug, Serialize, Deserialize, PartialEq)]
+pub enum SelCols {
+    /// nothing
+    Keep,
+    /// every column becomes a list as long as the list of types, with a fitting value of the document (an existing
+    /// resource, earlier annotation, data set with one of its keys / data, offsets) where the kind at that position
+    /// reads the column and an empty entry elsewhere
+    Repair,
+    /// the same, then the lists of the columns selected by the bits of `cols` (0 = all) get another length:
+    /// how 0: last entry dropped, 1: last entry repeated, 2: collapsed to the first non-empty entry, 3: emptied,
+    /// 4: first entry dropped
+    RepairThen { cols: u8, how: u8 },
+}
+
 #[derive(Clone, Debug, Serialize, Deserialize, PartialEq)]
 pub enum NChoice {
     Abs(u8),
@@ -1117,6 +1183,13 @@ pub enum Mutation {
     RowSwap { file: u16, row: u16 },
     ColDel { file: u16, col: u16 },
     ColSwap { file: u16, col: u16 },
+    /// column-aware: the SelectorType cell of a row of the annotations table (with `fresh` a new row) is rewritten into
+    /// a list built from SELECTOR_NAMES[types], the parallel columns follow as `cols` says; `salt` varies the values
+    CsvSel { row: u16, fresh: bool, edit: SelEdit, types: Vec<u8>, cols: SelCols, salt: u16 },
+    // ---- JSON: a ladder of temporary ids over successive items of one list. The `which`-th list of kind
+    // LADDER_LISTS[list] is grown to LADDER_GROW[grow] items, then the items start .. start + run (run 0 = to the
+    // end) get "@id" := "!" + letter + (k * LADDER_STEPS[step] + jitter_k); letter 0 = the letter of the list
+    JLadder { file: u16, list: u8, which: u16, grow: u8, start: u16, run: u8, letter: u8, step: u8, jitter: u8 },
     // ---- CBOR, structured (decode to a generic tree, edit, re-encode)
     CInt { nth: u16, val: IntChoice },
     CDelete { nth: u16 },
@@ -1163,6 +1236,8 @@ impl Mutation {
             Mutation::Cell { .. } => "csv.cell",
             Mutation::RowDup { .. } | Mutation::RowDel { .. } | Mutation::RowSwap { .. } => "csv.row",
             Mutation::ColDel { .. } | Mutation::ColSwap { .. } => "csv.column",
+            Mutation::CsvSel { .. } => "csv.selector-list",
+            Mutation::JLadder { .. } => "json.tempid-ladder",
             Mutation::CInt { .. } => "cbor.integer",
             Mutation::CDelete { .. } | Mutation::CDup { .. } | Mutation::CSwap { .. } => "cbor.structure",
             Mutation::CRetype { .. } => "cbor.retype",
@@ -1363,6 +1438,147 @@ fn rename_list(cell: &str, pre: &str, post: &str) -> String {
 
 /// columns of the STAM CSV files that hold identifiers
 const CSV_ID_COLUMNS: [&str; 9] = ["Id", "AnnotationData", "AnnotationDataSet", "TargetResource", "TargetAnnotation", "TargetDataSet", "TargetKey", "TargetData", "Key"];
+
+// ---- the annotations table of a STAM CSV document set and what its rows can refer to
+
+const ANNOTATION_COLUMNS: [&str; 11] = ["Id", "AnnotationData", "AnnotationDataSet", "SelectorType", "TargetResource", "TargetAnnotation", "TargetDataSet", "BeginOffset", "EndOffset", "TargetKey", "TargetData"];
+
+/// index and rows of the annotations table: the first CSV file whose header has a SelectorType column; an empty file
+/// that is named like one (a store without annotations) counts as a table with nothing but the header
+fn annotations_table(docs: &DocSet) -> Option<(usize, Vec<Vec<String>>)> {
+    for (i, (name, bytes)) in docs.iter().enumerate() {
+        if !name.ends_with(".csv") {
+            continue;
+        }
+        match csv_parse(bytes) {
+            Some(rows) => {
+                if rows[0].iter().any(|h| h == "SelectorType") {
+                    return Some((i, rows));
+                }
+            }
+            None => {
+                if name.contains(".annotations.") && bytes.iter().all(|b| b.is_ascii_whitespace()) {
+                    return Some((i, vec![ANNOTATION_COLUMNS.iter().map(|c| c.to_string()).collect()]));
+                }
+            }
+        }
+    }
+    None
+}
+
+/// which columns a selector kind reads: 0 text, 1 annotation, 2 resource, 3 data set, 4 key, 5 data, 6 complex; None = not a kind
+pub fn sel_class(name: &str) -> Option<u8> {
+    Some(match name {
+        "TextSelector" | "textselector" | "text" => 0,
+        "AnnotationSelector" | "annotationselector" | "annotation" => 1,
+        "ResourceSelector" | "resourceselector" | "resource" => 2,
+        "DataSetSelector" | "datasetselector" | "set" | "annotationset" | "dataset" => 3,
+        "DataKeySelector" | "datakeyselector" | "key" => 4,
+        "AnnotationDataSelector" | "annotationdataselector" | "dataselector" | "data" => 5,
+        "MultiSelector" | "multiselector" | "multi" | "CompositeSelector" | "compositeselector" | "composite" | "DirectionalSelector" | "directionalselector" | "directional" => 6,
+        _ => return None,
+    })
+}
+
+struct SelPools {
+    resources: Vec<String>,
+    /// (id, keys, data ids)
+    sets: Vec<(String, Vec<String>, Vec<String>)>,
+    /// ids of the rows before the one that is rewritten
+    annotations: Vec<String>,
+}
+
+impl SelPools {
+    fn of(docs: &DocSet, table: &[Vec<String>], row: usize) -> SelPools {
+        let mut p = SelPools { resources: vec![], sets: vec![], annotations: vec![] };
+        let push = |v: &mut Vec<String>, x: &str| {
+            if !x.is_empty() && !v.iter().any(|y| y == x) {
+                v.push(x.to_string());
+            }
+        };
+        for (_, bytes) in docs.iter().filter(|(n, _)| n.ends_with(".csv")) {
+            let Some(rows) = csv_parse(bytes) else { continue };
+            let pos = |name: &str| rows[0].iter().position(|h| h == name);
+            let (Some(t), Some(id), Some(f)) = (pos("Type"), pos("Id"), pos("Filename")) else { continue };
+            for r in rows.iter().skip(1) {
+                match r[t].as_str() {
+                    "TextResource" => push(&mut p.resources, &r[id]),
+                    "AnnotationDataSet" if !r[id].is_empty() => {
+                        let (mut keys, mut data) = (vec![], vec![]);
+                        if let Some(set) = docs.iter().find(|(n, _)| *n == r[f]).and_then(|(_, b)| csv_parse(b)) {
+                            let spos = |name: &str| set[0].iter().position(|h| h == name);
+                            if let (Some(sid), Some(skey)) = (spos("Id"), spos("Key")) {
+                                for x in set.iter().skip(1) {
+                                    push(&mut keys, &x[skey]);
+                                    push(&mut data, &x[sid]);
+                                }
+                            }
+                        }
+                        if !p.sets.iter().any(|s| s.0 == r[id]) {
+                            p.sets.push((r[id].clone(), keys, data));
+                        }
+                    }
+                    _ => {}
+                }
+            }
+        }
+        // without a manifest: what the table itself names
+        let pos = |name: &str| table[0].iter().position(|h| h == name);
+        if p.resources.is_empty() {
+            if let Some(c) = pos("TargetResource") {
+                table.iter().skip(1).flat_map(|r| r[c].split(';')).for_each(|x| push(&mut p.resources, x));
+            }
+        }
+        if p.sets.is_empty() {
+            if let Some(c) = pos("TargetDataSet") {
+                let mut ids = vec![];
+                table.iter().skip(1).flat_map(|r| r[c].split(';')).for_each(|x| push(&mut ids, x));
+                p.sets = ids.into_iter().map(|i| (i, vec![], vec![])).collect();
+            }
+        }
+        if let Some(c) = pos("Id") {
+            table.iter().take(row).skip(1).for_each(|r| push(&mut p.annotations, &r[c]));
+        }
+        p
+    }
+
+    /// values for SELECTOR_COLUMNS at a position whose entry is of this class
+    fn values(&self, class: Option<u8>, h: usize) -> [String; 7] {
+        const OFFSETS: [(&str, &str); 5] = [("0", "-0"), ("0", "1"), ("-1", "-0"), ("1", "2"), ("0", "0")];
+        let of = |v: &Vec<String>, h: usize| if v.is_empty() { String::new() } else { v[h % v.len()].clone() };
+        let mut out: [String; 7] = Default::default();
+        let set = if self.sets.is_empty() { None } else { Some(&self.sets[h % self.sets.len()]) };
+        match class {
+            Some(0) => {
+                out[0] = of(&self.resources, h);
+                let o = OFFSETS[(h / 7) % OFFSETS.len()];
+                out[3] = o.0.to_string();
+                out[4] = o.1.to_string();
+            }
+            Some(1) => {
+                out[1] = of(&self.annotations, h);
+                if h % 3 == 0 {
+                    let o = OFFSETS[(h / 7) % OFFSETS.len()];
+                    out[3] = o.0.to_string();
+                    out[4] = o.1.to_string();
+                }
+            }
+            Some(2) => out[0] = of(&self.resources, h),
+            Some(3) => out[2] = set.map(|s| s.0.clone()).unwrap_or_default(),
+            Some(4) => {
+                out[2] = set.map(|s| s.0.clone()).unwrap_or_default();
+                out[5] = set.map(|s| of(&s.1, h / 3)).unwrap_or_default();
+            }
+            Some(5) => {
+                out[2] = set.map(|s| s.0.clone()).unwrap_or_default();
+                out[6] = set.map(|s| of(&s.2, h / 5)).unwrap_or_default();
+            }
+            _ => {}
+        }
+        out
+    }
+}
+
 
 /// the same, and `labels` receives what is worth counting about the mutation (which kind of header, which kind of string)
 pub fn apply_l(docs: &mut DocSet, m: &Mutation, labels: &mut Vec<String>) -> bool {
@@ -1827,6 +2043,212 @@ pub fn apply_l(docs: &mut DocSet, m: &Mutation, labels: &mut Vec<String>) -> boo
             }
             true
         }),
+        Mutation::CsvSel { row, fresh, edit, types, cols, salt } => {
+            let Some((fi, mut rows)) = annotations_table(docs) else { return false };
+            let header = rows[0].clone();
+            let col = |name: &str| header.iter().position(|h| h == name);
+            let Some(c_type) = col("SelectorType") else { return false };
+            let fresh = *fresh || rows.len() < 2;
+            let r = if fresh {
+                let at = 1 + pick(*row, rows.len());
+                rows.insert(at, vec![String::new(); header.len()]);
+                at
+            } else {
+                1 + pick(*row, rows.len() - 1)
+            };
+            let before = rows[r].clone();
+            let old: Vec<String> = if before[c_type].is_empty() { vec![] } else { before[c_type].split(';').map(|x| x.to_string()).collect() };
+            let drawn: Vec<String> = if types.is_empty() { vec![SELECTOR_NAMES[0].to_string()] } else { types.iter().map(|t| SELECTOR_NAMES[*t as usize % SELECTOR_NAMES.len()].to_string()).collect() };
+            let new: Vec<String> = match edit {
+                SelEdit::Replace => drawn.clone(),
+                SelEdit::Head => drawn[..1].iter().chain(old.iter().skip(1)).cloned().collect(),
+                SelEdit::Prepend => drawn.iter().chain(old.iter()).cloned().collect(),
+                SelEdit::Append => old.iter().chain(drawn.iter()).cloned().collect(),
+                SelEdit::At(pos) => {
+                    let mut v = old.clone();
+                    if v.len() >= 2 {
+                        let at = 1 + pick(*pos, v.len() - 1);
+                        v[at] = drawn[0].clone();
+                    } else {
+                        v = drawn[..1].to_vec();
+                    }
+                    v
+                }
+                SelEdit::DropHead => old.iter().skip(1).cloned().collect(),
+                SelEdit::RepeatHead(n) => vec![old.first().unwrap_or(&drawn[0]).clone(); 2 + (*n as usize % 4)],
+            };
+            rows[r][c_type] = new.join(";");
+            if !matches!(cols, SelCols::Keep) {
+                let stable = !fresh && matches!(edit, SelEdit::Head | SelEdit::At(_) | SelEdit::Append | SelEdit::RepeatHead(_));
+                let pools = SelPools::of(docs, &rows, r);
+                let mut lists: Vec<Vec<String>> = vec![vec![]; SELECTOR_COLUMNS.len()];
+                for (i, name) in new.iter().enumerate() {
+                    let h = (*salt as usize).wrapping_mul(31).wrapping_add(i * 17);
+                    let vals = pools.values(sel_class(name), h);
+                    for (c, cname) in SELECTOR_COLUMNS.iter().enumerate() {
+                        let kept = if stable && !vals[c].is_empty() {
+                            col(cname).and_then(|ci| before[ci].split(';').nth(i).filter(|x| !x.is_empty()).map(|x| x.to_string()))
+                        } else {
+                            None
+                        };
+                        lists[c].push(kept.unwrap_or_else(|| vals[c].clone()));
+                    }
+                }
+                if let SelCols::RepairThen { cols, how } = cols {
+                    for (c, l) in lists.iter_mut().enumerate() {
+                        if *cols % 128 != 0 && (*cols >> c) & 1 == 0 {
+                            continue;
+                        }
+                        match how % 5 {
+                            0 => {
+                                l.pop();
+                            }
+                            1 => {
+                                if let Some(x) = l.last().cloned() {
+                                    l.push(x);
+                                }
+                            }
+                            2 => *l = l.iter().find(|x| !x.is_empty()).cloned().into_iter().collect(),
+                            3 => l.clear(),
+                            _ => {
+                                if !l.is_empty() {
+                                    l.remove(0);
+                                }
+                            }
+                        }
+                    }
+                }
+                for (c, cname) in SELECTOR_COLUMNS.iter().enumerate() {
+                    if let Some(ci) = col(cname) {
+                        rows[r][ci] = lists[c].join(";");
+                    }
+                }
+            }
+            if !fresh && rows[r] == before {
+                return false;
+            }
+            let classes: Vec<Option<u8>> = new.iter().map(|n| sel_class(n)).collect();
+            let simple = |c: &Option<u8>| matches!(c, Some(0..=5));
+            let complex = |c: &Option<u8>| matches!(c, Some(6));
+            labels.push(
+                match (classes.first(), classes.len()) {
+                    (None, _) => "sel:no-entry",
+                    (Some(c), 1) if simple(c) => "sel:simple-alone",
+                    (Some(c), 1) if complex(c) => "sel:complex-head-alone",
+                    (Some(c), _) if simple(c) => "sel:simple-head+more",
+                    (Some(c), _) if complex(c) => "sel:complex-head+more",
+                    _ => "sel:unknown-head",
+                }
+                .to_string(),
+            );
+            if classes.len() >= 2 && classes.iter().skip(1).all(simple) {
+                labels.push(format!("sel:{}+all-simple-after", if classes.first().map(simple).unwrap_or(false) { "simple-head" } else if classes.first().map(complex).unwrap_or(false) { "complex-head" } else { "unknown-head" }));
+            }
+            if classes.iter().skip(1).any(complex) {
+                labels.push("sel:complex-in-later-position".into());
+            }
+            if classes.iter().any(|c| c.is_none()) {
+                labels.push("sel:unknown-or-empty-entry".into());
+            }
+            labels.push(
+                match cols {
+                    SelCols::Keep => "selcols:kept",
+                    SelCols::Repair => "selcols:same-length",
+                    SelCols::RepairThen { .. } => "selcols:other-length",
+                }
+                .to_string(),
+            );
+            if fresh {
+                labels.push("sel:new-row".into());
+            }
+            docs[fi].1 = csv_write(&rows).into_bytes();
+            true
+        }
+        Mutation::JLadder { file, list, which, grow, start, run, letter, step, jitter } => {
+            let kind = *list as usize % LADDER_LISTS.len();
+            let member = match kind {
+                0 => "annotations",
+                2 => "keys",
+                _ => "data",
+            };
+            let jsons: Vec<usize> = docs.iter().enumerate().filter(|(_, (n, _))| n.ends_with(".json")).map(|(i, _)| i).collect();
+            if jsons.is_empty() {
+                return false;
+            }
+            // the chosen file first, then the others: the list may live in a stand-off file
+            let first = pick(*file, jsons.len());
+            for off in 0..jsons.len() {
+                let i = jsons[(first + off) % jsons.len()];
+                let Some(mut j) = J::parse(&docs[i].1) else { continue };
+                let is_set = |o: &J| o.get("keys").is_some() || o.get("@type").and_then(|t| t.as_str()) == Some("AnnotationDataSet");
+                let mut cands: Vec<Vec<usize>> = j.paths(&|k, v| k == Some(member) && matches!(v, J::Arr(a) if !a.is_empty()));
+                if kind == 1 || kind == 3 {
+                    cands.retain(|p| {
+                        let in_set = j.at(&p[..p.len() - 1]).map(is_set).unwrap_or(false);
+                        in_set == (kind == 1)
+                    });
+                }
+                if kind == 0 {
+                    // a bare list of annotations (what annotate_from_file reads)
+                    if let J::Arr(a) = &j {
+                        if !a.is_empty() && a.iter().all(|x| matches!(x, J::Obj(_))) {
+                            cands.insert(0, vec![]);
+                        }
+                    }
+                }
+                if cands.is_empty() {
+                    continue;
+                }
+                let path = cands[pick(*which, cands.len())].clone();
+                let Some(J::Arr(arr)) = j.at_mut(&path) else { continue };
+                let n0 = arr.len();
+                let target = LADDER_GROW[*grow as usize % LADDER_GROW.len()];
+                let mut k = 0;
+                while arr.len() < target {
+                    let x = arr[k % n0].clone();
+                    arr.push(x);
+                    k += 1;
+                }
+                let s0 = pick(*start, arr.len());
+                let len = if *run == 0 { arr.len() - s0 } else { (*run as usize).min(arr.len() - s0) };
+                let l = if *letter == 0 { ["A", "D", "K", "D"][kind] } else { TEMP_LETTERS[(*letter as usize - 1) % TEMP_LETTERS.len()] };
+                let st = LADDER_STEPS[*step as usize % LADDER_STEPS.len()];
+                let mut hit = arr.len() > n0;
+                let mut rungs = 0;
+                for k in 0..len {
+                    let jit = ((*jitter as u64 % 3) * k as u64) % 3;
+                    let id = J::Str(format!("!{}{}", l, k as u64 * st + jit));
+                    let item = &mut arr[s0 + k];
+                    if !matches!(item, J::Obj(_)) {
+                        continue;
+                    }
+                    rungs += 1;
+                    match item.get("@id") {
+                        Some(x) if *x == id => {}
+                        Some(_) => {
+                            item.set("@id", id);
+                            hit = true;
+                        }
+                        None => {
+                            item.insert_front("@id", id);
+                            hit = true;
+                        }
+                    }
+                }
+                if !hit {
+                    return false;
+                }
+                labels.push(format!("ladder:{}", LADDER_LISTS[kind]));
+                labels.push(format!("ladder:step-{}", st));
+                labels.push(format!("ladder:rungs-{}", if rungs >= 16 { "16+" } else if rungs >= 4 { "4-15" } else { "1-3" }));
+                if *jitter % 3 != 0 {
+                    labels.push("ladder:jitter".into());
+                }
+                docs[i].1 = j.write().into_bytes();
+                return true;
+            }
+            false
+        }
         Mutation::CInt { nth, val } => with_cbor(docs, |c, _| {
             let is_int = |x: &C| matches!(x, C::U(_));
             let n = c.count(&is_int);
